@@ -6,7 +6,7 @@ CONSTANTS NV = 5
           MaxView = 1
           MaxHeight = 1
           MaxId = 2
-          MaxSigns = 99
+          MaxSigns = 3
           NWho = 2
           Rich = TRUE
           EmitOn = TRUE
